@@ -47,7 +47,7 @@ let op_of (s : string) : op =
 let dest_s = function
   | DCaller -> "caller" | DCap k -> "cap" ^ string_of_int (int_of_z k) | DRej -> "rej" | DFail -> "fail"
 let out_s = function
-  | ONone -> "none" | ORet -> "ret" | OPanic -> "panic" | ONoSlot -> "noslot"
+  | ONone -> "none" | ORet | ONoop -> "ret" | OPanic -> "panic" | ONoSlot -> "noslot"
   | OStruct true -> "ok" | OStruct false -> "rej"
   | OHandle (HProxy x) -> "p" ^ string_of_int (int_of_nat x)
   | OHandle (HDirect d) -> dest_s d
